@@ -127,6 +127,37 @@ def run(ck):
         if not any(oks):
             ck.fail(["C20", "statement", w], "no generated %r statement parses without errors" % w, {"word": w}, "errors", "clean parse")
     ck.count("statements", len(sents), {s for _, s in sents}, sample={"sentence": sents[0][1][:100]})
+    # ---- the same at every statement position of the file level: inside let / foreach / if / defset bodies (braced or a single
+    # statement); what completion offers THERE must start a statement the parser accepts THERE
+    SAMPLE = {"assert": 'assert 1, "m";', "class": "class K9;", "def": "def d9;", "defm": "defm dm9 : M0;", "defset": "defset list<A0> S9 = { }", "defvar": "defvar v9 = 1;",
+              "dump": 'dump "x";', "foreach": "foreach j9 = [1] in def f9;", "if": "if 1 then def i9;", "include": 'include "inc9.td"', "let": "let q9 = 1 in def l9;",
+              "multiclass": "multiclass MC9 { def x; }"}
+    PRE = "class A0;\nmulticlass M0 { def y; }\n"
+    POS = [("top", PRE + "@"), ("let-block", PRE + "let f = 1 in {\n@\n}\n"), ("let-single", PRE + "let f = 1 in\n@\n"), ("foreach-block", PRE + "foreach i = [0, 1] in {\n@\n}\n"),
+           ("foreach-single", PRE + "foreach i = [0, 1] in\n@\n"), ("if-then", PRE + "if 1 then {\n@\n}\n"), ("if-else", PRE + "if 1 then def t; else {\n@\n}\n"),
+           ("defset", PRE + "defset list<A0> S = {\n@\n}\n"), ("foreach-in-let", PRE + "let f = 1 in { foreach i = [0] in {\n@\n} }\n"),
+           ("after-statement", PRE + "def before;\n@\ndef after;\n")]
+    plines = []
+    for name, tpl in POS:
+        text = tpl.replace("@", "de")
+        plines.append(ws({"/main.td": text}, "/main.td", [["completion", "/main.td", len(tpl[: tpl.index("@")].encode()) + 1, None]]))
+    pouts = core.impl(plines, tag="kwpos")
+    ptexts = []
+    for (name, tpl), o in zip(POS, pouts):
+        try:
+            items = json.loads(o)[0] or []
+        except Exception:
+            items = []
+        for it in items:
+            w_ = it[0]
+            if it[2] == "Keyword" and w_ in SAMPLE:
+                ptexts.append((name, w_, tpl.replace("@", SAMPLE[w_])))
+    ppa, ppb = core.compare(ck, "statements_in_position", [x[2] for x in ptexts], lambda s_: "parse %s" % hexs(s_))
+    for (name, w_, text), r in zip(ptexts, ppa):
+        if not r.endswith("errs="):
+            ck.fail(["C20", "statement-in-position", "%s@%s" % (w_, name)], "completion offers the statement keyword %r at the position %s, but the parser rejects a %s statement there" % (w_, name, w_),
+                    {"text": text}, r[-200:], "zero errors")
+    ck.count("statements_in_position", len(ptexts), {x[2] for x in ptexts}, sample={"text": ptexts[0][2][:160]} if ptexts else None, positions=len(POS))
     # ---- class completion: exactly the classes of the workspace, one placeholder per parameter
     progs = []
     for _ in range(120 if ck.tier == "quick" else 10000):
